@@ -419,6 +419,319 @@ impl<Block: ChainBlock> BlockTree<Block> {
 //@| proof { self.lemma_best_path_len(); }
 //@end
 
+
+    // ---- C03 / C04: depths ---------------------------------------------------------------
+    // longest root-to-leaf branch, in blocks
+    spec fn max_child_depth(cs: Seq<BlockTree<Block>>, n: int) -> int
+        decreases cs, n
+    {
+        if n <= 0 || n > cs.len() { 0 } else {
+            let p = Self::max_child_depth(cs, n - 1);
+            let d = cs[n - 1].sdepth();
+            if d > p { d } else { p }
+        }
+    }
+    spec fn sdepth(&self) -> int
+        decreases self
+    {
+        1 + Self::max_child_depth(self.children@, self.children@.len() as int)
+    }
+    // heaviest root-to-leaf branch, in accumulated difficulty
+    spec fn max_child_dbd(cs: Seq<BlockTree<Block>>, n: int) -> int
+        decreases cs, n
+    {
+        if n <= 0 || n > cs.len() { 0 } else {
+            let p = Self::max_child_dbd(cs, n - 1);
+            let d = cs[n - 1].sdbd();
+            if d > p { d } else { p }
+        }
+    }
+    spec fn sdbd(&self) -> int
+        decreases self
+    {
+        self.root.sdiff() + Self::max_child_dbd(self.children@, self.children@.len() as int)
+    }
+    // [assumption, stated] tree height < 2^32 (depths are carried in u32 by block_hashes_with_depths_by_heights)
+    spec fn wf_depth(&self) -> bool
+        decreases self
+    {
+        self.sdepth() <= u32::MAX
+        && forall|i: int| 0 <= i < self.children@.len() ==> (#[trigger] self.children@[i]).wf_depth()
+    }
+
+    proof fn lemma_max_child_depth_mono(cs: Seq<BlockTree<Block>>, m: int, n: int)
+        requires 0 <= m <= n <= cs.len(),
+        ensures 0 <= Self::max_child_depth(cs, m) <= Self::max_child_depth(cs, n),
+            forall|i: int| 0 <= i < n ==> (#[trigger] cs[i]).sdepth() <= Self::max_child_depth(cs, n),
+        decreases n,
+    {
+        if n > 0 {
+            if m < n { Self::lemma_max_child_depth_mono(cs, m, n - 1); } else { Self::lemma_max_child_depth_mono(cs, m - 1, n - 1); }
+        }
+    }
+    proof fn lemma_max_child_dbd_mono(cs: Seq<BlockTree<Block>>, m: int, n: int)
+        requires 0 <= m <= n <= cs.len(),
+        ensures 0 <= Self::max_child_dbd(cs, m) <= Self::max_child_dbd(cs, n),
+            forall|i: int| 0 <= i < n ==> (#[trigger] cs[i]).sdbd() <= Self::max_child_dbd(cs, n),
+        decreases n,
+    {
+        if n > 0 {
+            if m < n { Self::lemma_max_child_dbd_mono(cs, m, n - 1); } else { Self::lemma_max_child_dbd_mono(cs, m - 1, n - 1); }
+        }
+    }
+//@lemma fn=lemma_dbd_is_best_key props=C02,C03
+    // the heaviest branch's weight is the first component of the served branch's key
+    proof fn lemma_dbd_is_best_key(&self)
+        ensures self.sdbd() == self.best_key().0,
+        decreases self,
+    {
+        Self::lemma_child_dbd_is_best_child_key(self.children@, self.children@.len() as int);
+    }
+    proof fn lemma_child_dbd_is_best_child_key(cs: Seq<BlockTree<Block>>, n: int)
+        requires 0 <= n <= cs.len(),
+        ensures Self::max_child_dbd(cs, n) == Self::best_child_key(cs, n).0,
+        decreases cs, n,
+    {
+        if n > 0 {
+            Self::lemma_child_dbd_is_best_child_key(cs, n - 1);
+            cs[n - 1].lemma_dbd_is_best_key();
+            cs[n - 1].lemma_best_key_pos();
+            Self::lemma_best_child_pos(cs, n - 1);
+        }
+    }
+//@lemma fn=lemma_dbd_depth_are_max_over_paths props=C03,C04
+    // oracle: sdbd / sdepth are the maxima of (sum difficulty) / (length) over ALL root-to-leaf branches
+    proof fn lemma_dbd_depth_are_max_over_paths(&self, p: Seq<int>)
+        requires self.is_leaf_path(p),
+        ensures self.path_key(p).0 <= self.sdbd(), self.path_key(p).1 <= self.sdepth(),
+        decreases self,
+    {
+        let cs = self.children@;
+        let n = cs.len() as int;
+        if n > 0 {
+            cs[p[0]].lemma_dbd_depth_are_max_over_paths(p.skip(1));
+            Self::lemma_max_child_dbd_mono(cs, n, n);
+            Self::lemma_max_child_depth_mono(cs, n, n);
+        }
+    }
+    proof fn lemma_depth_attained(&self) -> (p: Seq<int>)
+        ensures self.is_leaf_path(p), self.path_key(p).1 == self.sdepth(),
+        decreases self,
+    {
+        let cs = self.children@;
+        let n = cs.len() as int;
+        if n == 0 { Seq::empty() } else {
+            let i = Self::lemma_max_child_depth_witness(cs, n);
+            let q = cs[i].lemma_depth_attained();
+            let p = seq![i] + q;
+            assert(p.skip(1) =~= q);
+            p
+        }
+    }
+    proof fn lemma_max_child_depth_witness(cs: Seq<BlockTree<Block>>, n: int) -> (i: int)
+        requires 0 < n <= cs.len(),
+        ensures 0 <= i < n, cs[i].sdepth() == Self::max_child_depth(cs, n),
+        decreases n,
+    {
+        cs[n - 1].lemma_depth_pos();
+        assert(Self::max_child_depth(cs, 0) == 0);
+        if n == 1 { assert(Self::max_child_depth(cs, 1) == cs[0].sdepth()); 0 } else {
+            let j = Self::lemma_max_child_depth_witness(cs, n - 1);
+            if cs[n - 1].sdepth() > Self::max_child_depth(cs, n - 1) { n - 1 } else { j }
+        }
+    }
+    proof fn lemma_depth_pos(&self)
+        ensures self.sdepth() >= 1, self.sdbd() >= 0,
+        decreases self,
+    {
+        Self::lemma_max_child_depth_mono(self.children@, 0, self.children@.len() as int);
+        Self::lemma_max_child_dbd_mono(self.children@, 0, self.children@.len() as int);
+    }
+//@lemma fn=lemma_leading_child_is_served props=C03
+    // C03 "the new anchor lies on the chain being served": a child whose heaviest branch leads every
+    // sibling's by a positive margin is the child the served branch goes through.
+    proof fn lemma_leading_child_is_served(&self, c: int, margin: int)
+        requires
+            0 <= c < self.children@.len(),
+            margin > 0,
+            forall|j: int| 0 <= j < self.children@.len() && j != c ==>
+                self.children@[c].sdbd() - (#[trigger] self.children@[j]).sdbd() >= margin,
+        ensures
+            Self::best_child_idx(self.children@, self.children@.len() as int) == c,
+            self.best_path().len() >= 2 && self.best_path()[1] == self.children@[c].root,
+    {
+        let cs = self.children@;
+        let n = cs.len() as int;
+        Self::lemma_best_child_bounds(cs, n);
+        let bi = Self::best_child_idx(cs, n);
+        cs[c].lemma_dbd_is_best_key();
+        cs[bi].lemma_dbd_is_best_key();
+        assert(!key_gt(cs[c].best_key(), Self::best_child_key(cs, n)));
+        if bi != c {
+            assert(cs[c].sdbd() - cs[bi].sdbd() >= margin);
+            assert(false);
+        }
+        assert(self.children@[c].best_path()[0] == self.children@[c].root) by {
+            // first element of a best path is the root
+            let t = self.children@[c];
+            let k = Self::best_child_idx(t.children@, t.children@.len() as int);
+        }
+    }
+
+//@extract file=canister/src/blocktree.rs in="impl<Block> BlockTree<Block>" item="fn depth" props=C03,C04
+//@ ret r
+//@ spec
+//@| requires self.wf_depth(),
+//@| ensures r.0 == self.sdepth(),
+//@| decreases self,
+//@ loop 1 binder=it
+//@| invariant
+//@|     res.0 == Self::max_child_depth(self.children@, it.index@),
+//@|     self.wf_depth(),
+//@ before "res = res + Depth::new(1);"
+//@| proof { Self::lemma_max_child_depth_mono(self.children@, 0, self.children@.len() as int); }
+//@end
+
+//@extract file=canister/src/blocktree.rs in="impl<Block: ChainBlock> BlockTree<Block>" item="fn difficulty_based_depth" props=C03
+//@ ret r
+//@ spec
+//@| requires self.wf(),
+//@| ensures r.0 == self.sdbd(), r.0 == self.best_key().0,
+//@| decreases self,
+//@ loop 1 binder=it
+//@| invariant
+//@|     res.0 == Self::max_child_dbd(self.children@, it.index@),
+//@|     self.wf(),
+//@ before "res = res + DifficultyBasedDepth::new(self.root.difficulty());"
+//@| proof {
+//@|     Self::lemma_max_child_dbd_mono(self.children@, 0, self.children@.len() as int);
+//@|     self.lemma_dbd_is_best_key();
+//@| }
+//@end
+
+//@extract file=canister/src/blocktree.rs in="impl<Block> BlockTree<Block>" item="fn remove_child" props=C03
+//@ ret r
+//@ spec
+//@| requires index < old(self).children@.len(),
+//@| ensures
+//@|     r == old(self).children@[index as int],
+//@|     final(self).root == old(self).root,
+//@|     final(self).children@ =~= old(self).children@.update(index as int, old(self).children@.last()).drop_last(),
+//@end
+
+
+    // ---- C01 / C06 / C13: lookup of a block by hash, pre-order listing ---------------------
+    spec fn contains(&self, h: BlockHash) -> bool
+        decreases self
+    {
+        self.root.shash() == h || exists|i: int| 0 <= i < self.children@.len() && (#[trigger] self.children@[i]).contains(h)
+    }
+    // first child (in arrival order) among the first n whose subtree contains h, or -1
+    spec fn first_child_with(cs: Seq<BlockTree<Block>>, h: BlockHash, n: int) -> int
+        decreases cs, n
+    {
+        if n <= 0 || n > cs.len() { -1 } else {
+            let r = Self::first_child_with(cs, h, n - 1);
+            if r >= 0 { r } else if cs[n - 1].contains(h) { n - 1 } else { -1 }
+        }
+    }
+    // child-index path from the root to the first (depth-first) block with hash h
+    spec fn idx_path_to(&self, h: BlockHash) -> Seq<int>
+        decreases self
+    {
+        if self.root.shash() == h { Seq::empty() } else {
+            let i = Self::first_child_with(self.children@, h, self.children@.len() as int);
+            if 0 <= i < self.children@.len() { seq![i] + self.children@[i].idx_path_to(h) } else { Seq::empty() }
+        }
+    }
+    spec fn subtree_at(&self, p: Seq<int>) -> BlockTree<Block>
+        decreases self
+    {
+        if p.len() > 0 && 0 <= p[0] < self.children@.len() { self.children@[p[0]].subtree_at(p.skip(1)) } else { *self }
+    }
+    spec fn child_roots(&self) -> Seq<Block> {
+        Seq::new(self.children@.len(), |i: int| self.children@[i].root)
+    }
+    spec fn preorder(&self) -> Seq<BlockHash>
+        decreases self
+    {
+        seq![self.root.shash()] + Self::preorder_children(self.children@, self.children@.len() as int)
+    }
+    spec fn preorder_children(cs: Seq<BlockTree<Block>>, n: int) -> Seq<BlockHash>
+        decreases cs, n
+    {
+        if n <= 0 || n > cs.len() { Seq::empty() } else { Self::preorder_children(cs, n - 1) + cs[n - 1].preorder() }
+    }
+    proof fn lemma_first_child_with(cs: Seq<BlockTree<Block>>, h: BlockHash, n: int)
+        requires 0 <= n <= cs.len(),
+        ensures
+            Self::first_child_with(cs, h, n) == -1 <==> (forall|i: int| 0 <= i < n ==> !(#[trigger] cs[i]).contains(h)),
+            Self::first_child_with(cs, h, n) != -1 ==> 0 <= Self::first_child_with(cs, h, n) < n
+                && cs[Self::first_child_with(cs, h, n)].contains(h)
+                && (forall|i: int| 0 <= i < Self::first_child_with(cs, h, n) ==> !(#[trigger] cs[i]).contains(h)),
+        decreases n,
+    {
+        if n > 0 { Self::lemma_first_child_with(cs, h, n - 1); }
+    }
+
+    // [trusted:assumed-contract] BlockTree::get_child_blocks (`self.children.iter().map(|c| &c.root).collect()`,
+    // a closure pipeline Verus cannot read) returns the roots of the children in order.
+    #[verifier::external_body]
+    fn get_child_blocks(&self) -> (r: Vec<&Block>)
+        ensures deref_seq(r@) =~= self.child_roots(),
+    { unimplemented!() }
+
+//@extract file=canister/src/blocktree.rs in="impl<Block: ChainBlock> BlockTree<Block>" item="fn get_chain_with_tip_reverse" props=C01,C06
+//@ ret res
+//@ spec
+//@| ensures
+//@|     res.is_some() <==> self.contains(*tip),
+//@|     res matches Some(p) ==> rev_refs(p.0@) =~= self.path_blocks(self.idx_path_to(*tip))
+//@|         && deref_seq(p.1@) =~= self.subtree_at(self.idx_path_to(*tip)).child_roots()
+//@|         && self.subtree_at(self.idx_path_to(*tip)).root.shash() == *tip
+//@|         && p.0@.len() >= 1,
+//@| decreases self,
+//@ loop 1 binder=it
+//@| invariant
+//@|     forall|i: int| 0 <= i < it.index@ ==> !(#[trigger] self.children@[i]).contains(*tip),
+//@|     self.root.shash() != *tip,
+//@ before "chain.push(&self.root);"
+//@| proof {
+//@|     Self::lemma_first_child_with(self.children@, *tip, self.children@.len() as int);
+//@|     let ghost k = it.index@;
+//@|     assert(self.idx_path_to(*tip) =~= seq![k] + self.children@[k].idx_path_to(*tip));
+//@|     assert(self.idx_path_to(*tip).skip(1) =~= self.children@[k].idx_path_to(*tip));
+//@| }
+//@end
+
+//@extract file=canister/src/blocktree.rs in="impl<Block: ChainBlock> BlockTree<Block>" item="fn find" props=C10
+//@ ret res
+//@ spec
+//@| ensures
+//@|     res.is_some() <==> self.contains(*block_hash),
+//@|     res matches Some(t) ==> t.root.shash() == *block_hash,
+//@| decreases self,
+//@ loop 1 binder=it
+//@| invariant
+//@|     forall|i: int| 0 <= i < it.index@ ==> !(#[trigger] self.children@[i]).contains(*block_hash),
+//@|     self.root.shash() != *block_hash,
+//@end
+
+//@extract file=canister/src/blocktree.rs in="impl<Block: ChainBlock> BlockTree<Block>" item="fn collect_hashes" props=C13
+//@ spec
+//@| ensures final(hashes)@ =~= old(hashes)@ + self.preorder(),
+//@| decreases self,
+//@ loop 1 binder=it
+//@| invariant
+//@|     hashes@ =~= old(hashes)@ + seq![self.root.shash()] + Self::preorder_children(self.children@, it.index@),
+//@end
+
+//@extract file=canister/src/blocktree.rs in="impl<Block: ChainBlock> BlockTree<Block>" item="fn get_hashes" props=C13
+//@ ret r
+//@ spec
+//@| ensures r@ =~= self.preorder(), r@.len() >= 1, r@[0] == self.root.shash(),
+//@end
+
     proof fn lemma_best_path_len(&self)
         ensures self.best_path().len() == self.best_key().1,
         decreases self,
